@@ -365,7 +365,7 @@ impl Op {
         use Op::*;
         let n = self.name();
         match self {
-            Crash { cmp, k, op } => format!("!{}{} {}", match *cmp { 1 => "cmp", 0 => "cb", 3 => "cl", _ => "hk" }, k, op.line()),
+            Crash { cmp, k, op } => format!("!{}{} {}", match *cmp { 1 => "cmp", 0 => "cb", 3 => "cl", 4 => "dr", _ => "hk" }, k, op.line()),
             CloneFrom(keep, xs) => format!("{} {} {}", n, keep, es(xs)),
             ViaRef(op) => format!("ref {}", op.line()),
             Fresh(c, cap) => format!("{} {} {}", n, c, cap),
@@ -402,7 +402,7 @@ impl Op {
         let line = line.trim();
         if let Some(rest) = line.strip_prefix('!') {
             let (head, tail) = rest.split_once(' ').ok_or("bad crash op")?;
-            let (cmp, num) = if let Some(x) = head.strip_prefix("cmp") { (1u8, x) } else if let Some(x) = head.strip_prefix("cb") { (0u8, x) } else if let Some(x) = head.strip_prefix("hk") { (2u8, x) } else if let Some(x) = head.strip_prefix("cl") { (3u8, x) } else { return Err("bad crash prefix".into()) };
+            let (cmp, num) = if let Some(x) = head.strip_prefix("cmp") { (1u8, x) } else if let Some(x) = head.strip_prefix("cb") { (0u8, x) } else if let Some(x) = head.strip_prefix("hk") { (2u8, x) } else if let Some(x) = head.strip_prefix("cl") { (3u8, x) } else if let Some(x) = head.strip_prefix("dr") { (4u8, x) } else { return Err("bad crash prefix".into()) };
             let k: u64 = num.parse().map_err(|e| format!("{:?}", e))?;
             return Ok(Op::Crash { cmp, k, op: Box::new(Op::parse(tail)?) });
         }
@@ -730,6 +730,7 @@ pub fn apply<H: HX>(q: &mut AnyQ<H>, op: &Op, lk: Lookup) -> String {
                 1 => FUSE.with(|f| f.set(CMP.with(|c| c.get()) + *k)),
                 0 => CBFUSE.with(|f| f.set(CBCOUNT.with(|c| c.get()) + *k)),
                 3 => CLFUSE.with(|f| f.set(CLCOUNT.with(|c| c.get()) + *k)),
+                4 => DRFUSE.with(|f| f.set(DRCOUNT.with(|c| c.get()) + *k)),
                 _ => HKFUSE.with(|f| f.set(HKCOUNT.with(|c| c.get()) + *k)),
             }
             struct Disarm;
@@ -739,6 +740,7 @@ pub fn apply<H: HX>(q: &mut AnyQ<H>, op: &Op, lk: Lookup) -> String {
                     CBFUSE.with(|f| f.set(0));
                     HKFUSE.with(|f| f.set(0));
                     CLFUSE.with(|f| f.set(0));
+                    DRFUSE.with(|f| f.set(0));
                 }
             }
             let _d = Disarm;
